@@ -124,6 +124,9 @@ type Params struct {
 	Raw bool
 	// Stalls: a goroutine may be held up for 5 ms / 1.5 s before an atomic write (a scheduling deviation)
 	Stalls bool
+	// IdleFirst: the connection is opened and then nothing is written at either end for this long
+	// (virtual); the readers are already waiting in Read
+	IdleFirst time.Duration
 }
 
 // sizes prints a list of write sizes, a long run of equal sizes as NxS.
@@ -158,6 +161,9 @@ func (p Params) String() string {
 	}
 	if p.Stalls {
 		s += " stalls"
+	}
+	if p.IdleFirst != 0 {
+		s += fmt.Sprintf(" idle-before-first-write=%v", p.IdleFirst)
 	}
 	if p.WriteGap != 0 {
 		s += fmt.Sprintf(" write-gap=%v", p.WriteGap)
@@ -215,6 +221,11 @@ func ExecWith(p Params, pats []NamedTP, ctl *explore.Ctl, mon Monitor, adjust fu
 		// a failure pattern of its own: what happens to a connection whose reader pauses for longer
 		// than the stack's timestamp tolerance / retransmission budget
 		v.Prop += "/reader-paused-over-2min"
+	}
+	if p.IdleFirst >= 4*time.Minute && (p.Raw || p.NoWait) {
+		// a failure pattern of its own: the first segment is sealed with a key derived when the
+		// connection was dialled, more than the receiver's tolerance of two key slots ago
+		v.Prop += "/first-write-over-4min-after-dial"
 	}
 	hz := p.Horizon
 	if hz == 0 {
@@ -312,7 +323,12 @@ func ExecWith(p Params, pats []NamedTP, ctl *explore.Ctl, mon Monitor, adjust fu
 					v.Add("wrong-request", "server accepted a request for port %d", tag)
 					return
 				}
-				sg.Go(fmt.Sprintf("srv-w%d", id), "server", func() { writer(v, c, id, 's', p.SW, p.WriteGap) })
+				sg.Go(fmt.Sprintf("srv-w%d", id), "server", func() {
+					if p.IdleFirst != 0 && !p.Raw && !p.NoWait { // otherwise the server learns of the connection only with the first write
+						vsched.Sleep(p.IdleFirst)
+					}
+					writer(v, c, id, 's', p.SW, p.WriteGap)
+				})
 				sg.Go(fmt.Sprintf("srv-r%d", id), "server", func() {
 					if p.ReadDelay != 0 {
 						vsched.Sleep(p.ReadDelay)
@@ -341,7 +357,12 @@ func ExecWith(p Params, pats []NamedTP, ctl *explore.Ctl, mon Monitor, adjust fu
 				}
 				conns[k] = c
 				var cg world.Group
-				cg.Go(fmt.Sprintf("cli-w%d", k), "client", func() { writer(v, c, k, 'c', p.CW, p.WriteGap) })
+				cg.Go(fmt.Sprintf("cli-w%d", k), "client", func() {
+					if p.IdleFirst != 0 {
+						vsched.Sleep(p.IdleFirst)
+					}
+					writer(v, c, k, 'c', p.CW, p.WriteGap)
+				})
 				cg.Go(fmt.Sprintf("cli-r%d", k), "client", func() {
 					if p.ReadDelay != 0 {
 						vsched.Sleep(p.ReadDelay)
@@ -361,6 +382,11 @@ func ExecWith(p Params, pats []NamedTP, ctl *explore.Ctl, mon Monitor, adjust fu
 		}
 		w.Shutdown()
 	})
+	if os.Getenv("VERIF_DEBUG_NET") != "" {
+		for _, d := range ex.W.Net.Dgrams {
+			fmt.Fprintf(os.Stderr, "DGRAM %d %s sent=%v read=%v %v->%v len=%d\n", d.Idx, d.Node, time.Duration(d.SentAt), time.Duration(d.ReadAt), d.From, d.To, len(d.B))
+		}
+	}
 	for _, e := range ex.W.Errs {
 		v.Add("setup", "%s", e)
 	}
@@ -457,7 +483,7 @@ func reader(v *Verdict, c net.Conn, id int, dir byte, total, bufSize int) bool {
 			if err == io.EOF {
 				v.Add("early-eof", "session %d dir %c: end of stream after %d of %d bytes while both ends were open", id, dir, got, total)
 			} else {
-				v.Add("read-error", "session %d dir %c: Read failed after %d of %d bytes: %v", id, dir, got, total, err)
+				v.Add("read-error", "session %d dir %c: Read failed after %d of %d bytes: %v (virtual time %v)", id, dir, got, total, err, time.Duration(vsched.S.NowNS()))
 			}
 			return false
 		}
